@@ -33,6 +33,7 @@ class C03(CoreProp):
         "blocks only read caller variables (in-place writes from block content go through a Go slice shared with the caller "
         "frame; not modelled, not generated)",
         "argument / attribute expressions are in the C01 core subset and domain; mixins are defined once, before use",
+        "a loop variable is not read after its loop (the engine keeps the last element, pug scopes it to the loop: F-C02-f)",
     ]
     not_yet_proved = [
         "C03_program: exec (parse (compile p)) = Spec.Sem.sem_run p for all programs with mixins (closure semantics) as ONE "
@@ -60,7 +61,7 @@ class C03(CoreProp):
             elif k < 0.40:
                 # a caller-local name: must not be visible inside the mixin
                 out.append(('text', b"["))
-                out.append(('code', [('expr', ('id', rng.choice([b"v1", b"v2", b"it1"])))], True, True))
+                out.append(('code', [('expr', ('id', rng.choice([b"v1", b"v2", b"cv9"])))], True, True))
                 out.append(('text', b"]"))
             elif k < 0.58:
                 out.append(('mixinblock',))
@@ -139,6 +140,11 @@ class C03(CoreProp):
                         attrs.append((an, g.expr(env, 'str', rng.choice([0, 1])), True))
                 kk = rng.random()
                 blk = []
+                own = None
+                if kk < 0.65 and rng.random() < 0.3:
+                    # the block content declares a variable of its own and prints it after whatever it calls
+                    own = g.fresh(b"bz")
+                    blk.append(('code', [('vars', [('var', own, g.lit(rng.choice(['num', 'str'])))])], False, False))
                 if kk < 0.65:
                     for _ in range(rng.choice([1, 2, 3])):
                         r = rng.random()
@@ -151,6 +157,9 @@ class C03(CoreProp):
                             blk.append(call(env, depth - 1))
                         else:
                             blk.extend(g.nodes(env, 1, 1, BODY_KINDS))
+                if own is not None:
+                    blk.append(('text', b"~"))
+                    blk.append(('code', [('expr', ('id', own))], True, True))
                 return ('call', name, args, attrs, blk)
 
             for _ in range(rng.choice([1, 2, 3, 4])):
